@@ -34,7 +34,7 @@ EXPLANATION = (
 )
 
 MANIFEST = {
-    "technique": "static analysis: term-level information flow (longitude normalisation, coordinate-system dependence); evaluation of the extracted level-1 score / selection on region representatives against the corner table; one descent step evaluated straight-line for all 81 score patterns; slice-origin/offset agreement; memo-key dependence analysis (tables, decorator caches, rebinding globals); selection helpers evaluated over all patterns of finite scores",
+    "technique": "static analysis: term-level information flow (longitude normalisation, coordinate-system dependence); evaluation of the extracted level-1 score / selection on region representatives against the corner table; one descent step evaluated straight-line for all 81 score patterns; slice-origin/offset agreement; memo-key dependence analysis (tables, decorator caches, rebinding globals); selection helpers evaluated over all patterns of finite scores; the unit vector handed to the half-space tests depends on both coordinates of the point on every path (no tolerance-based special case)",
     "text": "Decides periodicity, nesting, coordinate-system dependence and level-1 range table of the tile lookup, the exact form of the containment score and selection loop, and the structural soundness of the pixel fit (wrapped longitude differences, stamp origin). Containment at depth >= 2 and fit accuracy are not decided.",
     "note": "Trusted: numpy dot/cross, lstsq; the compiled pixel grid (C05). Not decided: geometric containment for deep tiles, the <= 2 pixel accuracy of the fit.",
 }
